@@ -921,9 +921,7 @@ Proof.
         - apply andb_true_iff in Hc. destruct Hc. apply text_eqb_rel; apply eval_atom_rel; auto. }
       rewrite Eb. match goal with |- context [if ?b then body else els] => destruct b end; apply IH; auto.
     - apply andb_true_iff in Hs. destruct Hs as [He Hbody].
-      apply for_loop_rel; auto.
-      + intros s0 s0' H0. apply IH; auto.
-      + apply loop_items_rel. apply eval_expr_rel; auto.
+      apply for_loop_rel; [intros s0 s0' H0; apply IH; auto|apply loop_items_rel; apply eval_expr_rel; auto|exact Hst].
     - cbv zeta. destruct Hst as (A & B & C & D). rewrite <- D.
       assert (Hv : Rv (match nth_error args (Nat.modulo (st_cycle s) (length args)) with Some a => evala true s a | None => VNil end)
                       (match nth_error args (Nat.modulo (st_cycle s) (length args)) with Some a => evala false s' a | None => VNil end)).
@@ -943,7 +941,7 @@ Proof.
       { pose proof (bind_args_rel _ _ binds Hst Hb). destruct Hst as (A & B & C & D). repeat split; simpl; auto. constructor. }
       specialize (IH _ _ body Hbody Hp).
       match goal with |- Rres (do r <- ?a; _) (do r <- ?b; _) => destruct a as [[o1 s1]|e|], b as [[o1' s1']|e'|] end; simpl in *; try contradiction; auto.
-      destruct IH as (Eo & Co & _). repeat split; auto. }
+      destruct IH as (Eo & Co & _). split; [exact Eo|split; [exact Co|exact Hst]]. }
   cbn [exec].
   match goal with |- Rres (do r <- ?a; _) (do r <- ?b; _) => destruct a as [[o1 s1]|e|], b as [[o1' s1']|e'|] end; simpl in *; try contradiction; auto.
   destruct Hstep as (Eo & Co & Rs). specialize (IH _ _ rest Hrest Rs).
@@ -963,11 +961,11 @@ Proof.
   - apply IH. apply andb_true_iff in H. tauto.
 Qed.
 
-Theorem identity_without_specials : forall fuel data p,
+Theorem identity_without_specials : forall data p,
   forallb (stmt_ok clean plain_filters) p = true -> clean_data data = true ->
   run_escape {| e_ae := true; e_data := data; e_prog := p |} = run_escape {| e_ae := false; e_data := data; e_prog := p |}.
 Proof.
-  intros _ data p Hp Hd. unfold run_escape. simpl.
+  intros data p Hp Hd. unfold run_escape. simpl.
   pose proof (exec_rel 200 {| st_scopes := []; st_locals := []; st_globals := data; st_cycle := 0 |}
                            {| st_scopes := []; st_locals := []; st_globals := data; st_cycle := 0 |} p Hp) as H.
   assert (Hst : Rstate {| st_scopes := []; st_locals := []; st_globals := data; st_cycle := 0 |}
